@@ -621,8 +621,13 @@ class nat_const_ineq_macro(Macro):
         if not (goal.is_not() and goal.arg.is_equals()):
             return False
 
+        # Both sides must be numerals of type nat in normal form: this is what the
+        # expansion proves (it always produces a statement about natural numbers).
         m, n = goal.arg.args
-        return m.is_number() and n.is_number() and m.dest_number() != n.dest_number()
+        if not (m.is_nat_number() and n.is_nat_number()):
+            return False
+        return m == Nat(m.dest_number()) and n == Nat(n.dest_number()) and \
+            m.dest_number() != n.dest_number()
 
     def eval(self, goal, pts):
         assert len(pts) == 0 and self.can_eval(goal), "nat_const_ineq_macro"
